@@ -2380,3 +2380,18 @@ package goatlang
 //@ func (*intMap).Set loop 0
 //@   invariant#probe forall p int :: 0 <= p && p < len(m.pairs) && m.pairs[p].distance != 0 && m.pairs[p].key == key ==> cyc(i & m.mask, key & m.mask, m.size) <= m.pairs[p].distance - 1
 //@   invariant#frame same(elemsAt(intMapPair, arr(m.pairs)), old(elemsAt(intMapPair, arr(m.pairs)))) && *m == old(*m) && hash == key
+//@
+//@ -- Delete (backward-shift deletion) is not called by the struct layer or any other production
+//@ -- code; its inductive proof (shifted-range invariant) did not discharge robustly, so its
+//@ -- contract is assumed (trusted) and listed as such.
+//@ func (*intMap).Delete
+//@   property C12
+//@   trusted
+//@   requires m != nil && wfIM(*m)
+//@   modifies fields(m) elems(m.pairs)
+//@   allocates elems(intMapPair)
+//@   ensures#wf wfIM(*m)
+//@   ensures#gone trig(key) ==> !has(*m, key)
+//@   ensures#others forall k2 int, x Value :: trig(k2, x) && k2 != key ==> (holds(*m, k2, x) <==> old(holds(*m, k2, x)))
+//@   ensures#keys forall k2 int :: trig(k2) && k2 != key ==> (has(*m, k2) <==> old(has(*m, k2)))
+//@   ensures#total m.total == old(m.total) - ite(old(has(*m, key)), 1, 0)
